@@ -130,7 +130,14 @@ def apply_timezone_from_settings(date_obj, settings):
     if settings is None:
         return date_obj
 
-    if "local" in settings.TIMEZONE.lower():
+    # A given format with %z yields a datetime that carries its own timezone:
+    # it keeps that instant and TIMEZONE only re-expresses it.
+    has_own_timezone = date_obj.tzinfo is not None
+
+    if has_own_timezone:
+        if "local" not in settings.TIMEZONE.lower():
+            date_obj = apply_timezone(date_obj, settings.TIMEZONE)
+    elif "local" in settings.TIMEZONE.lower():
         if hasattr(tz, "localize"):
             date_obj = tz.localize(date_obj)
         else:
@@ -141,7 +148,10 @@ def apply_timezone_from_settings(date_obj, settings):
     if settings.TO_TIMEZONE:
         date_obj = apply_timezone(date_obj, settings.TO_TIMEZONE)
 
-    if settings.RETURN_AS_TIMEZONE_AWARE is not True:
+    if not (
+        settings.RETURN_AS_TIMEZONE_AWARE is True
+        or (has_own_timezone and settings.RETURN_AS_TIMEZONE_AWARE == "default")
+    ):
         date_obj = date_obj.replace(tzinfo=None)
 
     return date_obj
